@@ -299,5 +299,530 @@ theorem good_update_takeover (m : Mgr) (l : Nat → Option Ep) (P : Pending) (id
   · exact nodupKeys_del _ _ np
   · clause
 
+/-! ### One pending REMOVAL is processed -/
+
+/-- the shadowed endpoints that have no update/removal of their own pending -/
+def candidates (sh : GoMap Nat Ep) (pd : Pending) : GoMap Nat Ep := sh.filter (fun p => (get pd p.1).isNone)
+
+theorem get_candidates (sh : GoMap Nat Ep) (pd : Pending) (k : Nat) :
+    get (candidates sh pd) k = if (get pd k).isNone then get sh k else none := by
+  unfold candidates
+  induction sh with
+  | nil => simp [C18.get]
+  | cons p r ih =>
+    obtain ⟨a, b⟩ := p
+    by_cases ha : (get pd a).isNone = true
+    · simp only [List.filter, ha, C18.get]
+      by_cases e : a = k
+      · subst e; simp [ha]
+      · simp only [e, if_false, ih]
+    · have ha' : (get pd a).isNone = false := by cases hq : (get pd a).isNone <;> simp_all
+      simp only [List.filter, ha', C18.get, ih]
+      by_cases e : a = k
+      · subst e; simp [ha']
+      · simp only [e, if_false]
+
+theorem nodup_candidates (sh : GoMap Nat Ep) (pd : Pending) (h : NodupKeys sh) : NodupKeys (candidates sh pd) := by
+  unfold NodupKeys C18.keys candidates at *
+  exact h.sublist ((List.filter_sublist).map _)
+
+theorem process_remove_inactive (m : Mgr) (pd : Pending) (id : Nat) (he : get m.active id = none)
+    (hc : get m.chainsOf id = none) :
+    m.process pd id none =
+      ({ m with chainsOf := del m.chainsOf id, active := del m.active id, shadowed := del m.shadowed id }, none) := by
+  unfold Mgr.process
+  simp [he, removeActive_none m id hc]
+
+theorem process_remove_active_none (m : Mgr) (pd : Pending) (id : Nat) (e : Ep) (he : get m.active id = some e)
+    (hc : get m.chainsOf id = some e.name) (hb : bestShadowed (candidates (del m.shadowed id) pd) e.name = none) :
+    m.process pd id none = ({ m with
+      chains := del m.chains e.name, chainsOf := del m.chainsOf id, routes := del m.routes e.name,
+      ifaceToID := del m.ifaceToID e.name, active := del m.active id, shadowed := del m.shadowed id }, none) := by
+  unfold candidates at hb
+  unfold Mgr.process
+  simp [he, removeActive_some m id e hc, hb]
+
+theorem process_remove_active_some (m : Mgr) (pd : Pending) (id : Nat) (e : Ep) (b : Nat) (eb : Ep)
+    (he : get m.active id = some e) (hc : get m.chainsOf id = some e.name)
+    (hb : bestShadowed (candidates (del m.shadowed id) pd) e.name = some b)
+    (hgb : get (del m.shadowed id) b = some eb) :
+    m.process pd id none = ({ m with
+      chains := del m.chains e.name, chainsOf := del m.chainsOf id, routes := del m.routes e.name,
+      ifaceToID := del m.ifaceToID e.name, active := del m.active id, shadowed := del (del m.shadowed id) b },
+      some (b, eb)) := by
+  unfold candidates at hb
+  unfold Mgr.process
+  simp [he, removeActive_some m id e hc, hb, hgb]
+
+/-- R1: removal of an endpoint that is not active (shadowed, promoted-but-pending, or unknown). -/
+theorem good_remove_inactive (m : Mgr) (l : Nat → Option Ep) (P : Pending) (id : Nat) (g : Good m l P)
+    (hP : get P id = some none) (hna : get m.active id = none) :
+    Good ({ m with chainsOf := del m.chainsOf id, active := del m.active id, shadowed := del m.shadowed id } : Mgr)
+      (updL l id none) (del P id) := by
+  obtain ⟨a1, a2, a3, b1, b2, c, d1a, d1b, d2a, d2b, d3a, d3b, nd, np, nr⟩ := g
+  constructor
+  · clause
+  · clause
+  · clause
+  · clause
+  · clause
+  · clause
+  · clause
+  · clause
+  · clause
+  · clause
+  · clause
+  · clause
+  · exact nodupKeys_del _ _ nd
+  · exact nodupKeys_del _ _ np
+  · clause
+
+/-- R2: removal of an active endpoint; nobody without a pending entry of its own waits behind it. -/
+theorem good_remove_active (m : Mgr) (l : Nat → Option Ep) (P : Pending) (id : Nat) (e : Ep) (g : Good m l P)
+    (hP : get P id = some none) (he : get m.active id = some e)
+    (hnone : ∀ j ej, get (candidates (del m.shadowed id) (del P id)) j = some ej → ej.name ≠ e.name) :
+    Good ({ m with
+      chains := del m.chains e.name, chainsOf := del m.chainsOf id, routes := del m.routes e.name,
+      ifaceToID := del m.ifaceToID e.name, active := del m.active id, shadowed := del m.shadowed id } : Mgr)
+      (updL l id none) (del P id) := by
+  obtain ⟨a1, a2, a3, b1, b2, c, d1a, d1b, d2a, d2b, d3a, d3b, nd, np, nr⟩ := g
+  simp only [get_candidates, get_del] at hnone
+  constructor
+  · clause
+  · clause
+  · clause
+  · clause
+  · clause
+  · intro i ei hs
+    simp only [get_del] at hs ⊢
+    have hi : id ≠ i := by intro h; subst h; simp at hs
+    simp only [hi, if_false] at hs ⊢
+    rcases c i ei hs with ⟨a, ha, hlt⟩ | h2 | ⟨b, eb, hb, hbn, hlt⟩
+    · by_cases hn : e.name = ei.name
+      · -- its holder was `id`: it must have an entry of its own, otherwise it would be a candidate
+        right; left
+        intro hnone'
+        exact hnone i ei (by simp [hi, hnone', hs]) hn.symm
+      · left; exact ⟨a, by simp [hn, ha], hlt⟩
+    · right; left; exact h2
+    · right; right
+      refine ⟨b, eb, ?_, hbn, hlt⟩
+      have : id ≠ b := by intro h; subst h; rw [hP] at hb; cases hb
+      simp [this, hb]
+  · clause
+  · clause
+  · clause
+  · clause
+  · clause
+  · clause
+  · exact nodupKeys_del _ _ nd
+  · exact nodupKeys_del _ _ np
+  · clause
+
+/-- R3: removal of an active endpoint; the smallest endpoint waiting behind it that has no pending entry
+of its own is queued for promotion. -/
+theorem good_remove_promote (m : Mgr) (l : Nat → Option Ep) (P : Pending) (id : Nat) (e : Ep) (b : Nat) (eb : Ep)
+    (g : Good m l P) (hP : get P id = some none) (he : get m.active id = some e)
+    (hb : get (candidates (del m.shadowed id) (del P id)) b = some eb) (hbn : eb.name = e.name)
+    (hmin : ∀ j ej, get (candidates (del m.shadowed id) (del P id)) j = some ej → ej.name = e.name → b ≤ j) :
+    Good ({ m with
+      chains := del m.chains e.name, chainsOf := del m.chainsOf id, routes := del m.routes e.name,
+      ifaceToID := del m.ifaceToID e.name, active := del m.active id, shadowed := del (del m.shadowed id) b } : Mgr)
+      (updL l id none) (set (del P id) b (some eb)) := by
+  obtain ⟨a1, a2, a3, b1, b2, c, d1a, d1b, d2a, d2b, d3a, d3b, nd, np, nr⟩ := g
+  simp only [get_candidates, get_del] at hmin hb
+  have hbid : b ≠ id := by intro h; subst h; simp at hb
+  have hbP : get P b = none := by
+    have := hb
+    simp only [Ne.symm hbid, if_false] at this
+    cases hq : get P b with
+    | none => rfl
+    | some q => simp [hq] at this
+  have hb' : get m.shadowed b = some eb := by
+    have := hb
+    simp only [Ne.symm hbid, if_false, hbP, Option.isNone_none, if_true] at this
+    exact this
+  have hlb := (a2 b eb hb').1
+  constructor
+  · clause
+  · clause
+  · clause
+  · clause
+  · clause
+  · intro i ei hs
+    simp only [get_del, get_set] at hs ⊢
+    have hi1 : id ≠ i := by intro h; subst h; simp at hs
+    have hi2 : b ≠ i := by intro h; subst h; simp at hs
+    simp only [hi1, hi2, if_false] at hs ⊢
+    rcases c i ei hs with ⟨a, ha, hlt⟩ | h2 | ⟨b', eb', hb2, hbn2, hlt⟩
+    · by_cases hn : e.name = ei.name
+      · by_cases hpi : get P i = none
+        · -- a candidate on the freed interface: the promoted one is smaller
+          right; right
+          refine ⟨b, eb, by simp, by rw [hbn, hn], ?_⟩
+          have := hmin i ei (by simp [hi1, hpi, hs]) hn.symm
+          omega
+        · right; left; exact hpi
+      · left; exact ⟨a, by simp [hn, ha], hlt⟩
+    · right; left; exact h2
+    · right; right
+      refine ⟨b', eb', ?_, hbn2, hlt⟩
+      have h1 : id ≠ b' := by intro h; subst h; rw [hP] at hb2; cases hb2
+      have h2 : b ≠ b' := by intro h; subst h; rw [hbP] at hb2; cases hb2
+      simp [h1, h2, hb2]
+  · clause
+  · clause
+  · clause
+  · clause
+  · clause
+  · clause
+  · exact nodupKeys_del _ _ (nodupKeys_del _ _ nd)
+  · exact nodupKeys_set _ _ _ (nodupKeys_del _ _ np)
+  · clause
+
+/-! ### Any one pending entry is processed -/
+
+theorem good_process (m : Mgr) (l : Nat → Option Ep) (P : Pending) (id : Nat) (w : Option Ep) (g : Good m l P)
+    (hP : get P id = some w) :
+    Good (m.process (del P id) id w).1 (updL l id w)
+      (match (m.process (del P id) id w).2 with
+       | some (b, e) => set (del P id) b (some e)
+       | none => del P id) ∧
+    (∀ b e, (m.process (del P id) id w).2 = some (b, e) →
+      w = none ∧ get P b = none ∧ b ≠ id ∧ l b = some e) := by
+  cases w with
+  | some w =>
+    have hold : ∀ o, get m.active id = some o → o.name = w.name := fun o ho => g.nr id w hP o (g.a1 id o ho)
+    cases h : get m.ifaceToID w.name with
+    | none =>
+      have hf : ∀ a, get m.ifaceToID w.name = some a → a = id := by intro a ha; rw [h] at ha; cases ha
+      rw [process_update_free m _ id w hf, activate_norename m id _ w hold]
+      exact ⟨good_update_free m l P id w g hP hf, by intro b e hbe; cases hbe⟩
+    | some a =>
+      by_cases hai : a = id
+      · have hf : ∀ a', get m.ifaceToID w.name = some a' → a' = id := by
+          intro a' ha'; rw [h] at ha'; cases ha'; exact hai
+        rw [process_update_free m _ id w hf, activate_norename m id _ w hold]
+        exact ⟨good_update_free m l P id w g hP hf, by intro b e hbe; cases hbe⟩
+      · by_cases hlt : a < id
+        · rw [process_update_shadow m _ id w a h hlt]
+          exact ⟨good_update_shadow m l P id w a g hP h hlt, by intro b e hbe; cases hbe⟩
+        · have hlt' : id < a := by omega
+          obtain ⟨ea, hea, hean⟩ := g.b1 _ _ h
+          rw [process_update_takeover m _ id w a ea h hlt' hea]
+          have hc : get ({ m with shadowed := set m.shadowed a ea } : Mgr).chainsOf a = some ea.name := g.d1a a ea hea
+          rw [removeActive_some _ a ea hc, activate_norename _ id _ w hold]
+          have := good_update_takeover m l P id w a ea g hP h hea hlt'
+          simp only [hean] at this ⊢
+          exact ⟨this, by intro b e hbe; cases hbe⟩
+  | none =>
+    cases he : get m.active id with
+    | none =>
+      rw [process_remove_inactive m _ id he (g.d1b id he)]
+      exact ⟨good_remove_inactive m l P id g hP he, by intro b e hbe; cases hbe⟩
+    | some e =>
+      have hc : get m.chainsOf id = some e.name := g.d1a id e he
+      have hnd : NodupKeys (candidates (del m.shadowed id) (del P id)) := nodup_candidates _ _ (nodupKeys_del _ _ g.nd)
+      cases hb : bestShadowed (candidates (del m.shadowed id) (del P id)) e.name with
+      | none =>
+        rw [process_remove_active_none m _ id e he hc hb]
+        exact ⟨good_remove_active m l P id e g hP he (bestShadowed_none _ hnd _ hb), by intro b e hbe; cases hbe⟩
+      | some b =>
+        obtain ⟨⟨eb, hgb, hbn⟩, hmin⟩ := bestShadowed_some _ hnd _ b hb
+        have hgb' : get (del m.shadowed id) b = some eb := by
+          rw [get_candidates] at hgb; split at hgb
+          · exact hgb
+          · cases hgb
+        rw [process_remove_active_some m _ id e b eb he hc hb hgb']
+        refine ⟨good_remove_promote m l P id e b eb g hP he hgb hbn hmin, ?_⟩
+        intro b' e' hbe
+        simp only [Option.some.injEq, Prod.mk.injEq] at hbe
+        obtain ⟨rfl, rfl⟩ := hbe
+        have hbid : b ≠ id := by intro h; subst h; simp [get_del] at hgb'
+        have hsb : get m.shadowed b = some eb := by simpa [get_del, Ne.symm hbid] using hgb'
+        have hpb : get P b = none := by
+          rw [get_candidates] at hgb
+          cases hq : get (del P id) b with
+          | none => simpa [get_del, Ne.symm hbid] using hq
+          | some q => simp [hq] at hgb
+        exact ⟨rfl, hpb, hbid, (g.a2 b eb hsb).1⟩
+
+/-! ### A whole batch, in any processing order -/
+
+/-- the live endpoints once every pending entry has been applied -/
+def lAfter (l : Nat → Option Ep) (P : Pending) : Nat → Option Ep :=
+  fun id => match get P id with
+    | some v => v
+    | none => l id
+
+/-- termination measure of the pending map: a removal can queue one more update. -/
+def mu (P : Pending) : Nat := (P.map (fun p => if p.2.isNone then 2 else 1)).sum
+
+theorem mu_pos_of_ne_nil (P : Pending) (h : P ≠ []) : 0 < mu P := by
+  cases P with
+  | nil => exact absurd rfl h
+  | cons p r => unfold mu; simp only [List.map_cons, List.sum_cons]; split <;> omega
+
+theorem del_of_absent (P : Pending) (b : Nat) (h : get P b = none) : del P b = P := by
+  induction P with
+  | nil => rfl
+  | cons p r ih =>
+    obtain ⟨a, v⟩ := p
+    by_cases e : a = b
+    · subst e; simp [C18.get] at h
+    · simp only [C18.get, e, if_false] at h
+      have := ih h
+      unfold del at this ⊢
+      simp only [List.filter, ne_eq, e, not_false_eq_true, decide_true]
+      rw [this]
+
+theorem mu_del (P : Pending) (hn : NodupKeys P) (id : Nat) (w : Option Ep) (h : get P id = some w) :
+    mu (del P id) + (if w.isNone then 2 else 1) = mu P := by
+  induction P with
+  | nil => simp [C18.get] at h
+  | cons p r ih =>
+    obtain ⟨a, v⟩ := p
+    have hn' : a ∉ C18.keys r ∧ NodupKeys r := by simpa [NodupKeys, C18.keys] using hn
+    by_cases e : a = id
+    · subst e
+      simp only [C18.get, if_true, Option.some.injEq] at h
+      subst h
+      have hr : get r a = none := (C18.get_eq_none_iff r a).2 hn'.1
+      have : del ((a, v) :: r) a = r := by
+        have := del_of_absent r a hr
+        simp only [del, List.filter, ne_eq, not_true_eq_false, decide_false] at this ⊢
+        exact this
+      rw [this]; unfold mu; simp only [List.map_cons, List.sum_cons]; omega
+    · simp only [C18.get, e, if_false] at h
+      have := ih hn'.2 h
+      have hd : del ((a, v) :: r) id = (a, v) :: del r id := by
+        simp [del, List.filter, e]
+      rw [hd]; unfold mu at this ⊢; simp only [List.map_cons, List.sum_cons]; omega
+
+theorem mu_set_fresh (P : Pending) (b : Nat) (e : Ep) (h : get P b = none) : mu (set P b (some e)) = mu P + 1 := by
+  unfold C18.set
+  rw [del_of_absent P b h]
+  unfold mu; simp only [List.map_cons, List.sum_cons, Option.isNone_some]; simp; omega
+
+theorem good_resolveAll (fuel : Nat) : ∀ (m : Mgr) (l : Nat → Option Ep) (P : Pending), Good m l P → mu P ≤ fuel →
+    ∀ m' ∈ m.resolveAll fuel P, Good m' (lAfter l P) [] := by
+  induction fuel with
+  | zero =>
+    intro m l P g hmu m' hm'
+    have hP : P = [] := by
+      cases P with
+      | nil => rfl
+      | cons p r => have := mu_pos_of_ne_nil (p :: r) (by simp); omega
+    subst hP
+    simp only [Mgr.resolveAll, List.mem_singleton] at hm'
+    subst hm'
+    exact g
+  | succ fuel ih =>
+    intro m l P g hmu m' hm'
+    cases P with
+    | nil =>
+      simp only [Mgr.resolveAll, List.mem_singleton] at hm'
+      subst hm'
+      exact g
+    | cons p ps =>
+      simp only [Mgr.resolveAll, List.mem_flatMap] at hm'
+      obtain ⟨q, hq, hm'⟩ := hm'
+      obtain ⟨id, w⟩ := q
+      have hP : get (p :: ps) id = some w := (get_eq_some_iff _ g.np id w).2 hq
+      obtain ⟨g1, hq1⟩ := good_process m l (p :: ps) id w g hP
+      have hmd := mu_del (p :: ps) g.np id w hP
+      cases hr : (m.process (del (p :: ps) id) id w).2 with
+      | none =>
+        simp only [hr] at hm' g1
+        have := ih _ _ _ g1 (by split at hmd <;> omega) m' hm'
+        have hl : lAfter (updL l id w) (del (p :: ps) id) = lAfter l (p :: ps) := by
+          funext x
+          unfold lAfter updL
+          rw [get_del]
+          by_cases e : id = x
+          · subst e; simp [hP]
+          · have : ¬ x = id := fun h => e h.symm
+            simp [e, this]
+        rw [hl] at this; exact this
+      | some be =>
+        obtain ⟨b, e⟩ := be
+        simp only [hr] at hm' g1
+        obtain ⟨hw, hpb, hbid, hlb⟩ := hq1 b e hr
+        subst hw
+        have hpb' : get (del (p :: ps) id) b = none := by rw [get_del]; simp [Ne.symm hbid, hpb]
+        have hms := mu_set_fresh (del (p :: ps) id) b e hpb'
+        have := ih _ _ _ g1 (by simp at hmd; omega) m' hm'
+        have hl : lAfter (updL l id none) (set (del (p :: ps) id) b (some e)) = lAfter l (p :: ps) := by
+          funext x
+          unfold lAfter updL
+          rw [get_set, get_del]
+          by_cases e1 : b = x
+          · subst e1; simp [hpb, hlb]
+          · by_cases e2 : id = x
+            · subst e2; simp [e1, hP]
+            · have : ¬ x = id := fun h => e2 h.symm
+              simp [e1, e2, this]
+        rw [hl] at this; exact this
+
+/-! ### Histories of batches -/
+
+theorem nodup_mkPending (us : Batch) : NodupKeys (mkPending us) := by
+  unfold mkPending
+  suffices h : ∀ P : Pending, NodupKeys P → NodupKeys (us.foldl (fun p u => set p u.1 u.2) P) from h [] nodupKeys_nil
+  induction us with
+  | nil => intro P h; exact h
+  | cons u r ih => intro P h; exact ih _ (nodupKeys_set _ _ _ h)
+
+theorem nodup_applyEntry (l : GoMap Nat Ep) (p : Nat × Option Ep) (h : NodupKeys l) : NodupKeys (applyEntry l p) := by
+  unfold applyEntry; split
+  · exact nodupKeys_set _ _ _ h
+  · exact nodupKeys_del _ _ h
+
+theorem nodup_fold_applyEntry (P : Pending) (l : GoMap Nat Ep) (h : NodupKeys l) : NodupKeys (P.foldl applyEntry l) := by
+  induction P generalizing l with
+  | nil => exact h
+  | cons p r ih => exact ih _ (nodup_applyEntry l p h)
+
+theorem get_fold_applyEntry (P : Pending) (hn : NodupKeys P) (l : GoMap Nat Ep) (id : Nat) :
+    get (P.foldl applyEntry l) id = lAfter (get l) P id := by
+  induction P generalizing l with
+  | nil => rfl
+  | cons p r ih =>
+    obtain ⟨a, v⟩ := p
+    have hn' : a ∉ C18.keys r ∧ NodupKeys r := by simpa [NodupKeys, C18.keys] using hn
+    simp only [List.foldl_cons, ih hn'.2]
+    unfold lAfter
+    by_cases e : a = id
+    · subst e
+      have hr : get r a = none := (C18.get_eq_none_iff r a).2 hn'.1
+      simp only [hr, C18.get, if_true]
+      unfold applyEntry
+      cases v <;> simp [get_set, get_del]
+    · simp only [C18.get, e, if_false]
+      cases get r id with
+      | some x => rfl
+      | none =>
+        simp only
+        unfold applyEntry
+        cases v <;> simp [get_set, get_del, e]
+
+theorem good_ext (m : Mgr) (l l' : Nat → Option Ep) (P : Pending) (h : ∀ id, l id = l' id) (g : Good m l P) :
+    Good m l' P := by
+  have : l = l' := funext h
+  subst this; exact g
+
+/-- one batch, whatever the processing order -/
+theorem good_batch (m : Mgr) (l : GoMap Nat Ep) (us : Batch) (g : Good m (get l) [])
+    (hnr : ∀ id w, get (mkPending us) id = some (some w) → ∀ e, get l id = some e → e.name = w.name)
+    (m' : Mgr) (hm : m' ∈ m.batch us) : Good m' (get (liveB l us)) [] := by
+  have hnp := nodup_mkPending us
+  have g0 : Good m (get l) (mkPending us) := by
+    obtain ⟨a1, a2, a3, b1, b2, c, d1a, d1b, d2a, d2b, d3a, d3b, nd, np, nr⟩ := g
+    refine ⟨a1, a2, ?_, b1, b2, ?_, d1a, d1b, d2a, d2b, d3a, d3b, nd, hnp, hnr⟩
+    · intro id e h
+      rcases a3 id e h with h1 | h1 | h1
+      · exact Or.inl h1
+      · exact Or.inr (Or.inl h1)
+      · simp [C18.get] at h1
+    · intro id e h
+      rcases c id e h with h1 | h1 | ⟨b, eb, hb, _⟩
+      · exact Or.inl h1
+      · exact absurd rfl h1
+      · simp [C18.get] at hb
+  have hmu : mu (mkPending us) ≤ 2 * (mkPending us).length + 2 := by
+    unfold mu
+    generalize mkPending us = P
+    induction P with
+    | nil => simp
+    | cons p r ih => simp only [List.map_cons, List.sum_cons, List.length_cons]; split <;> omega
+  have := good_resolveAll _ m (get l) (mkPending us) g0 hmu m' hm
+  exact good_ext _ _ _ _ (fun id => (get_fold_applyEntry _ hnp l id).symm) this
+
+theorem good_new : Good Mgr.new (get ([] : GoMap Nat Ep)) [] := by
+  constructor <;> intros <;> simp_all [Mgr.new, C18.get, NodupKeys, C18.keys]
+
+theorem nodup_liveB (l : GoMap Nat Ep) (us : Batch) (h : NodupKeys l) : NodupKeys (liveB l us) :=
+  nodup_fold_applyEntry _ _ h
+
+theorem good_reach (bs : List Batch) : ∀ (m : Mgr) (l : GoMap Nat Ep), Good m (get l) [] → NodupKeys l →
+    NoRenameBsFrom l bs → ∀ m', ReachFrom m bs m' →
+    Good m' (get (bs.foldl liveB l)) [] ∧ NodupKeys (bs.foldl liveB l) := by
+  induction bs with
+  | nil => intro m l g hl _ m' hr; simp only [ReachFrom] at hr; subst hr; exact ⟨g, hl⟩
+  | cons us r ih =>
+    intro m l g hl hnr m' hr
+    obtain ⟨m1, hm1, hr'⟩ := hr
+    exact ih m1 (liveB l us) (good_batch m l us g hnr.1 m1 hm1) (nodup_liveB l us hl) hnr.2 m' hr'
+
+/-- In a `Good` state with nothing pending the holder of an interface is the minimum live claimant. -/
+theorem best_of_good (m : Mgr) (l : GoMap Nat Ep) (g : Good m (get l) []) (hl : NodupKeys l) (name : Nat) :
+    bestShadowed l name = get m.ifaceToID name := by
+  have hc : ∀ id e, get m.shadowed id = some e → ∃ a, get m.ifaceToID e.name = some a ∧ a < id := by
+    intro id e h
+    rcases g.c id e h with h1 | h1 | ⟨b, eb, hb, _⟩
+    · exact h1
+    · exact absurd rfl h1
+    · simp [C18.get] at hb
+  have ha3 : ∀ id e, get l id = some e → get m.active id = some e ∨ get m.shadowed id = some e := by
+    intro id e h
+    rcases g.a3 id e h with h1 | h1 | h1
+    · exact Or.inl h1
+    · exact Or.inr h1
+    · simp [C18.get] at h1
+  cases hi : get m.ifaceToID name with
+  | none =>
+    cases hb : bestShadowed l name with
+    | none => rfl
+    | some b =>
+      exfalso
+      obtain ⟨⟨e, he, hn⟩, _⟩ := bestShadowed_some l hl name b hb
+      rcases ha3 b e he with h1 | h1
+      · have := g.b2 b e h1; rw [hn, hi] at this; cases this
+      · obtain ⟨a, ha, _⟩ := hc b e h1; rw [hn, hi] at ha; cases ha
+  | some h =>
+    obtain ⟨e, hact, hen⟩ := g.b1 name h hi
+    have hlh := g.a1 h e hact
+    cases hb : bestShadowed l name with
+    | none => exact absurd hen (bestShadowed_none l hl name hb h e hlh)
+    | some b =>
+      obtain ⟨⟨eb, heb, hn⟩, hmin⟩ := bestShadowed_some l hl name b hb
+      have hle := hmin h e hlh hen
+      rcases ha3 b eb heb with h1 | h1
+      · have := g.b2 b eb h1; rw [hn, hi] at this; cases this; rfl
+      · obtain ⟨a, ha, hlt⟩ := hc b eb h1; rw [hn, hi] at ha; cases ha; omega
+
+theorem chains_of_good (m : Mgr) (l : GoMap Nat Ep) (g : Good m (get l) []) (hl : NodupKeys l) (name : Nat) :
+    get m.chains name = specChains l name ∧ get m.routes name = specRoutes l name := by
+  unfold specChains specRoutes preferred
+  rw [best_of_good m l g hl name]
+  cases hi : get m.ifaceToID name with
+  | none => exact ⟨g.d2b name hi, g.d3b name hi⟩
+  | some h =>
+    obtain ⟨e, hact, hen⟩ := g.b1 name h hi
+    have hlh := g.a1 h e hact
+    simp only [Option.bind_some, hlh, Option.map_some]
+    refine ⟨g.d2a name h e hi hact, ?_⟩
+    rw [g.d3a name h e hi hact]
+
+/-- The minimum scan only depends on the map as a function. -/
+theorem bestShadowed_congr (l1 l2 : GoMap Nat Ep) (h1 : NodupKeys l1) (h2 : NodupKeys l2)
+    (h : ∀ id, get l1 id = get l2 id) (name : Nat) : bestShadowed l1 name = bestShadowed l2 name := by
+  cases hb1 : bestShadowed l1 name with
+  | none =>
+    cases hb2 : bestShadowed l2 name with
+    | none => rfl
+    | some b =>
+      obtain ⟨⟨e, he, hn⟩, _⟩ := bestShadowed_some l2 h2 name b hb2
+      exact absurd hn (bestShadowed_none l1 h1 name hb1 b e (by rw [h]; exact he))
+  | some a =>
+    obtain ⟨⟨ea, hea, hna⟩, hmina⟩ := bestShadowed_some l1 h1 name a hb1
+    cases hb2 : bestShadowed l2 name with
+    | none => exact absurd hna (bestShadowed_none l2 h2 name hb2 a ea (by rw [← h]; exact hea))
+    | some b =>
+      obtain ⟨⟨eb, heb, hnb⟩, hminb⟩ := bestShadowed_some l2 h2 name b hb2
+      have := hmina b eb (by rw [h]; exact heb) hnb
+      have := hminb a ea (by rw [← h]; exact hea) hna
+      congr 1; omega
+
 
 end CalicoVerif.C44
